@@ -16,6 +16,24 @@ CHECKS = {
   text="Thousands (quick) to hundreds of thousands (thorough) of scope-aware generated programs per run, over the core language and the four dialect options, are executed both by ExecFileOptions and by a reference interpreter written from the spec (own scoping, closures as environment frames, own argument binder, no bytecode); the host-visible effect sequence with argument reprs, the final globals including aliasing, success/failure and the full Starlark call stack with positions must agree. Exploration: agreement is shown for the generated programs only.",
   design_ref="DESIGN.md section 4, C01; section 3.1-3.2",
   note="Trusts the reference interpreter (harness/ref, ~900 lines) and the generator; the value layer (operators, built-ins) is shared with the implementation on purpose. Error texts are not compared."),
+ "C03": dict(
+  technique="metamorphic property testing: the transcript of a generated program must be identical across repeated, polluted, concurrent and cross-process executions",
+  category="exploration",
+  text="Generated programs with a determinism-sensitive section (large dicts/sets with long string keys, deletions and re-insertions, dir(), str of structs/modules/functions, json, hash(), kwargs, failing runs with backtraces, injected clock) are executed on a fresh thread, on a reused thread after unrelated programs, on 4 concurrent goroutines and in 2 child processes with their own hash seeds (recycled every 60 cases); effects, globals in iteration order, attribute listings, error, backtrace and step count must be byte-identical. Exploration: hash seeds and schedules are sampled.",
+  design_ref="DESIGN.md section 4, C03",
+  note="Trusts only string comparison of transcripts; the set of predeclared Go types is the harness's; seeds and interleavings are sampled, not enumerated."),
+ "C16": dict(
+  technique="property testing with a constructive oracle: programs are assembled by a writer that records the coordinates of every call and failing token, so the expected call stack is known by construction",
+  category="exploration",
+  text="Call chains of depth 1-8 through defs, lambdas, comprehensions, default-argument expressions, sorted/min/max callbacks, out-of-order conditional expressions and a loaded module, ending in one of 18 failing operation kinds, are laid out with line gaps up to 10^5, columns up to 10^4, permuted definition order and padding instructions; EvalError.CallStack must equal the expected frames exactly (name, file, line, column; built-in frames by name) and Backtrace() must list them outermost first. The (link kind x failure kind) catalogue is also enumerated exhaustively at a fixed layout.",
+  design_ref="DESIGN.md section 4, C16; appendix A",
+  note="Trusts the position conventions of appendix A (taken from the setPos call sites) and the coordinate-tracking writer (~40 lines); slice failures excluded."),
+ "C17": dict(
+  technique="differential and round-trip property testing: SourceProgram vs CompiledProgram(Write(SourceProgram)) on generated programs, plus byte-level idempotence of Write",
+  category="exploration",
+  text="Generated programs (C01's generator plus big-int/float/bytes/odd-string constants, docstrings, keyword-only parameters, closures, loads, recursion on/off, and padded layouts that saturate the position tables) are compiled, written, read back and re-written; both programs are initialised in fresh environments and must agree on effects, globals, error text, call stack positions, backtrace, step count, function metadata (docs, parameters with positions and defaults, free variables), loads and filename, and the second Write must reproduce the first byte for byte.",
+  design_ref="DESIGN.md section 4, C17",
+  note="Differential within one implementation: defects shared by both paths are C01's; only bytes produced by Write are decoded."),
 }
 
 PENDING_REASON = "check not built yet in this session (work in progress; DESIGN.md section 4 describes the planned generated-input check)"
